@@ -666,7 +666,7 @@ func (g *goGen) expr(e *SExpr) (string, bool) {
 			return e.Fun.Name + "(" + as[0] + ")", true
 		case "has":
 			return "func() bool { _, ok := " + as[0] + "[" + as[1] + "]; return ok }()", true
-		case "held", "wheld", "rheld", "isfresh", "elt", "arrid", "off", "tag", "tagof", "addrof", "noelems", "oncedone", "spawned", "visited", "panicking":
+		case "held", "wheld", "rheld", "isfresh", "elt", "arrid", "off", "tag", "tagof", "addrof", "noelems", "oncedone", "spawned", "chancap", "visited", "panicking":
 			return "", false
 		}
 		if g.fc.tryResolveType(e.Fun.Name, g.fc.pkg.Types) != nil {
